@@ -41,7 +41,8 @@ ASSUMPTIONS = ['a gevent hub exists (otherwise gevent delivers links synchronous
                'values are ints (None as a value is not distinguished from "no value" by AsyncResult.value)']
 
 MANIFEST = {
-    'text': ('Theorems C17_all, C17_all_sticky, C17_any, C17_any_sticky, C17_unwrap, C17_continue, C17_map hold for every number of '
+    'text': ('Theorems C17_schedule, C17_all, C17_all_sticky, C17_any, C17_any_sticky, C17_unwrap, C17_continue, C17_map, '
+             'C17_map_chain_live hold for every number of '
              'inputs, every success/failure assignment, every completion order, every point at which the hub runs, every '
              'subset already complete at call time and every nesting depth of the Gallina transcription of WhenAll/WhenAny/'
              '_UnwrapHelper/ContinueWith/Map over a model of gevent AsyncResult links; the transcription is compared in '
@@ -819,11 +820,58 @@ def describe(case, obs):
   return {'case': case, 'obs': obs}
 
 
+def _deliveries(case):
+  """Completions that reached the combinator's callback (well-formed all/any cases), in delivery order."""
+  q = sorted([list(p) for p in case['pre']], key=lambda p: p[0])
+  out = []
+  for op in case['ops']:
+    if op[0] == 'run':
+      out += q
+      q = []
+    else:
+      q.append(op[1:])
+  return out
+
+
+def _callback_branches(case, br):
+  k = case['kind']
+  n = case['n']
+  if k == 'any' and any(how == 'ok' for _i, how, _x in case['pre']):
+    br['any:shortcut'] = br.get('any:shortcut', 0) + 1
+    return
+  failed = succeeded = False
+  count = 0
+  for _i, how, _x in _deliveries(case):
+    count += 1
+    if k == 'all':
+      if how == 'err':
+        b = 'all_cb:failure-overwrites-failure' if failed else 'all_cb:first-failure'
+        failed = True
+      elif failed:
+        b = 'all_cb:success-ignored-after-failure'
+      else:
+        b = 'all_cb:countdown-reaches-zero' if count == n else 'all_cb:countdown'
+    else:
+      if succeeded or failed:
+        b = 'any_cb:ignored-already-ready'
+      elif how == 'ok':
+        b = 'any_cb:first-success'
+        succeeded = True
+      elif count == n:
+        b = 'any_cb:last-failure-fails'
+        failed = True
+      else:
+        b = 'any_cb:failure-not-last'
+    br[b] = br.get(b, 0) + 1
+
+
 def stats(cases, obs):
   br = {}
+  cb = {}
   nmax = {}
   undelivered = 0
   batched = 0
+  relinks = 0
   for c, o in zip(cases, obs):
     if not isinstance(o, dict) or 'steps' not in o:
       continue
@@ -837,6 +885,11 @@ def stats(cases, obs):
       undelivered += 1
     if any(a[0] != 'run' and b2[0] != 'run' for a, b2 in zip(ops, ops[1:])):
       batched += 1
-  return {'final_state_distribution': br, 'largest_n_or_depth': nmax,
+    if key in ('all', 'any') and well_formed(c):
+      _callback_branches(c, cb)
+    if key in ('unwrap', 'map') and sum(1 for op in ops if op[0] == 'run') >= 3:
+      relinks += 1
+  return {'final_state_distribution': br, 'callback_branches_delivered': cb, 'largest_n_or_depth': nmax,
           'histories_ending_with_undelivered_completions': undelivered,
-          'histories_with_several_completions_per_hub_run': batched}
+          'histories_with_several_completions_per_hub_run': batched,
+          'chain_histories_with_three_or_more_hub_runs': relinks}
